@@ -133,6 +133,14 @@ func execC16(c *child.Ctx, k loggerCase, cj []byte) {
 	} else if !k.NoEventDir {
 		cfgText += fmt.Sprintf(`, "event_log_directory": %q`, filepath.Join(dir, "events"))
 	}
+	switch k.ID % 5 {
+	case 1:
+		// the settings of the configuration file that ships with the program
+		// (apps/rtcmlogger/rtcmlogger.json), two of which rtcmlogger itself does not use
+		cfgText += `, "display_messages": true, "record_messages": true`
+	case 3:
+		cfgText += `, "comment": "station 7, roof", "caster_host_name": "caster.example", "caster_port": 2101, "input": ["/dev/ttyACM0"], "timeout_on_EOF_milliseconds": 500`
+	}
 	os.WriteFile(filepath.Join(dir, "cfg.json"), []byte(cfgText+"}"), 0644)
 	var extraEnv []string
 	if strings.HasPrefix(k.TZ, "fixed") {
